@@ -1519,6 +1519,45 @@ def check_death(run, exe, model, cases, scratch):
                 break
 
 
+def gen_odeath(r, cid, big=False):
+    n = r.choice([2, 3, 3, 4])
+    pace = r.choice([1, 2, 3])
+    T = pace * r.randint(1, 2)
+    variant = r.choice(["plain", "plain", "nlist", "adaptive"])
+    steps = [[V.dyadic(r, -2, 2, bits=4) for _ in range(n)] for _ in range(T + 1)]
+    return {"kind": "odeath", "id": cid, "n": n, "pace": pace, "variant": variant, "T": T, "victim": r.randrange(n),
+            "die_after": r.randrange(14), "steps": steps}
+
+
+def check_odeath(run, exe, model, cases, scratch):
+    keys = ("sumw", "sumw2", "neff", "rct", "zed", "kdenorm", "counter")
+    for c in cases:
+        n, T = c["n"], c["T"]
+        run.dist("opes-death:n=%d" % n)
+        run.count(json.dumps([c["steps"], c["pace"], c["victim"], c["die_after"], c["variant"]]), True)
+        try:
+            before, after = run_twice(scen.run_odeath, exe, c, scratch, timeout=15.0)
+        except W.WalkerTimeout as e:
+            run.violation("opes-death:survivor-hangs-or-dies", "OPES, walker %d dies at its replica call %d of the round of step %d: a surviving walker did "
+                          "not return from the step (%s)" % (c["victim"], c["die_after"], T, str(e)[:160]), {"kind": "odeath", "case": c})
+            continue
+        if any(d is None for d in before) or any(d is None for (_, d) in after.values()):
+            run.violation("opes-death:no-state", "a walker printed no OPES state around the interrupted round", {"kind": "odeath", "case": c})
+            continue
+        for w, (stl, d) in sorted(after.items()):
+            b = before[w]
+            same = d["kernels"] == b["kernels"] and all(d.get(k_) == b.get(k_) for k_ in keys)
+            full = c["variant"] == "plain" and len(d["kernels"]) == len(b["kernels"]) + n and d["counter"] == b["counter"] + n
+            moved = len(d["kernels"]) > len(b["kernels"]) and d["counter"] == b["counter"] + n      # (compression may merge kernels)
+            run.dist("opes-death:%s" % ("aborted" if same else "completed" if (full or moved) else "half"))
+            if not (same or full or moved):
+                run.violation("opes-death:half-completed-round", "OPES, %d walkers (%s), walker %d dies at its replica call %d of the round of step %d: walker %d "
+                              "is neither as before the step nor after a complete round: kernels %d -> %d, counter %s -> %s, sum of weights %s -> %s"
+                              % (n, c["variant"], c["victim"], c["die_after"], T, w, len(b["kernels"]), len(d["kernels"]), b["counter"], d["counter"],
+                                 b["sumw"], d["sumw"]), {"kind": "odeath", "case": c, "walker": w})
+                break
+
+
 # ==========================================================================================
 # configurations outside the premises of the models: they must be refused, not run
 # ==========================================================================================
@@ -1635,6 +1674,7 @@ def run_cases(run, exe, model, cases, scratch):
     check_czar(run, exe, model, [c for c in cases if c["kind"] == "czar"], scratch)
     check_opes(run, exe, model, [c for c in cases if c["kind"] == "opes"], scratch)
     check_death(run, exe, model, [c for c in cases if c["kind"] == "death"], scratch)
+    check_odeath(run, exe, model, [c for c in cases if c["kind"] == "odeath"], scratch)
 
 
 def check(run):
@@ -1665,6 +1705,7 @@ def check(run):
         cases += [gen_czar(r, "z%d" % i, big) for i in range(8 if quick else 150)]
         cases += [gen_opes(r, "o%d" % i, big) for i in range(8 if quick else 150)]
         cases += [gen_death(r, "d%d" % i, big) for i in range(6 if quick else 120)]
+        cases += [gen_odeath(r, "e%d" % i, big) for i in range(5 if quick else 100)]
         run_cases(run, exe, model, cases, scratch)
     finally:
         leftover = V.sh(["pgrep", "-f", exe])[1].split()
